@@ -233,6 +233,11 @@ func ptrRef(p *Ptr) string {
 	if p.Root == "obj" && p.Path == "" {
 		return p.Ref
 	}
+	if p.Root == "obj" && len(addressable) > 0 {
+		if k, _, rest, ok := addressableSplit(p.Base, strings.TrimSuffix(p.Path, ".")); ok && rest == "" {
+			return vref(k, p.Ref)
+		}
+	}
 	panic(oos("interior pointer used as a value (root=%s path=%q base=%s)", p.Root, p.Path, typeKey(p.Base)))
 }
 
@@ -357,4 +362,18 @@ func intBits(b *types.Basic) (bits uint, signed bool) {
 		return 64, false
 	}
 	return 64, true
+}
+
+// ptrHasRef: can this pointer be represented as an integer reference (a whole
+// object, or an addressable embedded field)?
+func ptrHasRef(p *Ptr) bool {
+	if p == nil || (p.Root == "obj" && p.Path == "") {
+		return true
+	}
+	if p.Root == "obj" && len(addressable) > 0 {
+		if _, _, rest, ok := addressableSplit(p.Base, strings.TrimSuffix(p.Path, ".")); ok && rest == "" {
+			return true
+		}
+	}
+	return false
 }
